@@ -71,61 +71,100 @@ func TestVerif_C01_redis_table(t *testing.T) {
 }
 
 type c01ROp struct {
-	C string `json:"c"` // get hget lpop rpop zscore zrank set
+	N int    `json:"n"` // node (address) index
+	C string `json:"c"` // get hget lpop rpop zscore zrank
 	O int    `json:"o"` // 0 ok/value present 1 missing (redis.Nil) 2 cancelled ctx 9 wrong type (failure)
 }
 
 type c01RCase struct {
-	Benign bool     `json:"benign"`
-	Ops    []c01ROp `json:"ops"`
-	Skew   int64    `json:"skew,omitempty"`
+	K    int      `json:"k"`    // redis nodes = addresses, each Redis value has its own breaker
+	Kind []int    `json:"kind"` // per node: 0 benign, 1 failing, 2 mixed
+	Ops  []c01ROp `json:"ops"`
+	Skew int64    `json:"skew,omitempty"`
 }
 
 func c01GenRedis(rt *rapid.T) c01RCase {
-	c := c01RCase{Benign: rapid.IntRange(0, 3).Draw(rt, "benign") != 0}
+	c := c01RCase{K: rapid.IntRange(1, 3).Draw(rt, "k")}
 	c.Skew = rapid.Int64Range(0, 1_000_000_000).Draw(rt, "skew")
-	n := rapid.IntRange(200, 300).Draw(rt, "n")
-	cmds := []string{"hget", "lpop", "rpop", "zscore", "zrank", "get"}
-	if c.Benign {
-		pool := []int{0, 1, 1, 2}
-		if rapid.Bool().Draw(rt, "single") {
-			pool = []int{rapid.IntRange(1, 2).Draw(rt, "the")}
-		}
+	all := []string{"hget", "lpop", "rpop", "zscore", "zrank", "get"}
+	scripts := make([][]c01ROp, c.K)
+	for n := 0; n < c.K; n++ {
+		kind := rapid.SampledFrom([]int{0, 0, 1, 1, 2}).Draw(rt, "kind")
+		c.Kind = append(c.Kind, kind)
+		cmds := all
 		if rapid.Bool().Draw(rt, "onecmd") { // a miscounting command must not be diluted by the others
-			cmds = []string{rapid.SampledFrom(cmds).Draw(rt, "thecmd")}
+			cmds = []string{rapid.SampledFrom(all).Draw(rt, "thecmd")}
 		}
-		for i := 0; i < n; i++ {
-			c.Ops = append(c.Ops, c01ROp{rapid.SampledFrom(cmds).Draw(rt, "c"), rapid.SampledFrom(pool).Draw(rt, "o")})
+		switch kind {
+		case 0:
+			ln := rapid.IntRange(200, 260).Draw(rt, "n")
+			pool := []int{0, 1, 1, 2}
+			if rapid.Bool().Draw(rt, "single") {
+				pool = []int{rapid.IntRange(1, 2).Draw(rt, "the")}
+			}
+			for i := 0; i < ln; i++ {
+				scripts[n] = append(scripts[n], c01ROp{n, rapid.SampledFrom(cmds).Draw(rt, "c"), rapid.SampledFrom(pool).Draw(rt, "o")})
+			}
+			nf := rapid.IntRange(0, 5).Draw(rt, "nfail")
+			for i := 0; i < nf; i++ {
+				scripts[n][rapid.IntRange(0, ln-1).Draw(rt, "pos")].O = 9
+			}
+		case 1:
+			ln := rapid.IntRange(200, 260).Draw(rt, "n")
+			for i := 0; i < ln; i++ {
+				scripts[n] = append(scripts[n], c01ROp{n, rapid.SampledFrom(cmds).Draw(rt, "c"), 9})
+			}
+		default:
+			ln := rapid.IntRange(20, 150).Draw(rt, "n")
+			for i := 0; i < ln; i++ {
+				scripts[n] = append(scripts[n], c01ROp{n, rapid.SampledFrom(cmds).Draw(rt, "c"), rapid.SampledFrom([]int{0, 1, 2, 9, 9}).Draw(rt, "o")})
+			}
 		}
-		nf := rapid.IntRange(0, 5).Draw(rt, "nfail")
-		for i := 0; i < nf; i++ {
-			c.Ops[rapid.IntRange(0, n-1).Draw(rt, "pos")].O = 9
+	}
+	pos := make([]int, c.K)
+	for {
+		var active []int
+		for n := range scripts {
+			if pos[n] < len(scripts[n]) {
+				active = append(active, n)
+			}
 		}
-	} else {
-		for i := 0; i < n; i++ {
-			c.Ops = append(c.Ops, c01ROp{rapid.SampledFrom(cmds).Draw(rt, "c"), 9})
+		if len(active) == 0 {
+			break
+		}
+		n := rapid.SampledFrom(active).Draw(rt, "node")
+		chunk := rapid.SampledFrom([]int{1, 1, 2, 5, 20, 100, 400}).Draw(rt, "chunk")
+		for ; chunk > 0 && pos[n] < len(scripts[n]); chunk-- {
+			c.Ops = append(c.Ops, scripts[n][pos[n]])
+			pos[n]++
 		}
 	}
 	return c
 }
 
-func c01InterpRedis(t *testing.T, s *miniredis.Miniredis, c c01RCase) (v kit.Verdict) {
+func c01InterpRedis(t *testing.T, servers []*miniredis.Miniredis, c c01RCase) (v kit.Verdict) {
 	var fail string
-	rejected, nfail := 0, 0
+	rejected := make([]int, c.K)
+	nfail := make([]int, c.K)
+	calls := make([]int, c.K)
 	classes := map[string]bool{}
 	res := kit.Bubble(t, func() {
 		if c.Skew > 0 {
 			time.Sleep(time.Duration(c.Skew))
 		}
-		r := New(s.Addr()) // fresh breaker, shared client
+		nodes := make([]*Redis, c.K)
+		for n := range nodes {
+			nodes[n] = New(servers[n].Addr()) // fresh breaker named after the address, shared client
+		}
 		cancelled, cancel := context.WithCancel(context.Background())
 		cancel()
 		for i, o := range c.Ops {
+			n := o.N % c.K
+			r, s := nodes[n], servers[n]
 			ctx := context.Background()
 			// keys: "h" hash{f:v}, "l" list (refilled), "z" zset{m:1}, "s" string; "none" is missing
 			key := map[string]string{"hget": "h", "lpop": "l", "rpop": "l", "zscore": "z", "zrank": "z", "get": "s"}[o.C]
 			var want error
-			wantNil := false
 			switch o.O {
 			case 0:
 				if o.C == "lpop" || o.C == "rpop" {
@@ -134,7 +173,7 @@ func c01InterpRedis(t *testing.T, s *miniredis.Miniredis, c c01RCase) (v kit.Ver
 			case 1:
 				key = "none"
 				if o.C != "get" { // Get maps a missing key to ("", nil) itself
-					want, wantNil = red.Nil, true
+					want = red.Nil
 				}
 			case 2:
 				ctx, want = cancelled, context.Canceled
@@ -143,8 +182,9 @@ func c01InterpRedis(t *testing.T, s *miniredis.Miniredis, c c01RCase) (v kit.Ver
 				if o.C == "get" {
 					key = "h"
 				}
-				nfail++
+				nfail[n]++
 			}
+			calls[n]++
 			before := s.CommandCount()
 			var err error
 			switch o.C {
@@ -161,16 +201,16 @@ func c01InterpRedis(t *testing.T, s *miniredis.Miniredis, c c01RCase) (v kit.Ver
 			case "get":
 				_, err = r.GetCtx(ctx, key)
 			}
-			what := fmt.Sprintf("call %d %+v", i, o)
+			what := fmt.Sprintf("op %d %+v (call %d of node %d)", i, o, calls[n], n)
 			classes[fmt.Sprintf("%s/%d", o.C, o.O)] = true
 			if err == breaker.ErrServiceUnavailable {
-				rejected++
+				rejected[n]++
 				if s.CommandCount() != before {
 					fail = fmt.Sprintf("%s: rejected by the breaker but the command reached the server", what)
 					return
 				}
-				if c.Benign {
-					fail = fmt.Sprintf("%s rejected by the breaker after only benign outcomes and %d (<=5) failures", what, nfail)
+				if c.Kind[n] == 0 {
+					fail = fmt.Sprintf("%s rejected by the breaker although this node saw only benign outcomes and %d (<=5) failures; kinds of all nodes: %v", what, nfail[n], c.Kind)
 					return
 				}
 				continue
@@ -182,27 +222,37 @@ func c01InterpRedis(t *testing.T, s *miniredis.Miniredis, c c01RCase) (v kit.Ver
 					return
 				}
 			case err != want:
-				fail = fmt.Sprintf("%s: harness environment: got %v, expected %v (redis.Nil expected: %v)", what, err, want, wantNil)
+				fail = fmt.Sprintf("%s: harness environment: got %v, expected %v", what, err, want)
 				return
 			}
 		}
-		if c.Benign {
-			for j := 0; j < 500; j++ {
-				if _, err := r.brk.Allow(); err != nil {
-					fail = fmt.Sprintf("after a run of benign outcomes and %d (<=5) failures the node's breaker rejects (probe %d)", nfail, j)
+		for n := 0; n < c.K; n++ {
+			switch c.Kind[n] {
+			case 0:
+				for j := 0; j < 500; j++ {
+					if _, err := nodes[n].brk.Allow(); err != nil {
+						fail = fmt.Sprintf("node %d: after only benign outcomes and %d (<=5) failures its breaker rejects (probe %d); kinds of all nodes: %v", n, nfail[n], j, c.Kind)
+						return
+					}
+				}
+			case 1:
+				if rejected[n] == 0 {
+					fail = fmt.Sprintf("node %d: %d consecutive failing commands were all admitted: the breaker never cut off", n, calls[n])
 					return
 				}
 			}
-		} else if rejected == 0 {
-			fail = fmt.Sprintf("%d consecutive failing commands were all admitted: the breaker never cut off", len(c.Ops))
 		}
 	})
-	v.NonTrivial = true
-	if c.Benign {
-		classes["benign-run"] = true
-	} else {
-		classes["failing-run"] = true
+	hasB, hasF := false, false
+	for _, kd := range c.Kind {
+		classes[[]string{"benign-node", "failing-node", "mixed-node"}[kd]] = true
+		hasB = hasB || kd == 0
+		hasF = hasF || kd == 1
 	}
+	if c.K > 1 {
+		classes["several-addresses"] = true
+	}
+	v.NonTrivial = hasB || hasF
 	for k := range classes {
 		v.Classes = append(v.Classes, k)
 	}
@@ -216,17 +266,21 @@ func c01InterpRedis(t *testing.T, s *miniredis.Miniredis, c c01RCase) (v kit.Ver
 }
 
 func TestVerif_C01_redis_run(t *testing.T) {
-	s, err := miniredis.Run()
-	if err != nil {
-		t.Fatalf("miniredis: %v", err)
+	var servers []*miniredis.Miniredis
+	for i := 0; i < 3; i++ {
+		s, err := miniredis.Run()
+		if err != nil {
+			t.Fatalf("miniredis: %v", err)
+		}
+		defer s.Close()
+		s.HSet("h", "f", "v")
+		s.ZAdd("z", 1, "m")
+		_ = s.Set("s", "str")
+		if !New(s.Addr()).Ping() { // warm the shared client of this address up outside any bubble
+			t.Fatalf("miniredis does not answer")
+		}
+		servers = append(servers, s)
 	}
-	defer s.Close()
-	s.HSet("h", "f", "v")
-	s.ZAdd("z", 1, "m")
-	_ = s.Set("s", "str")
-	if !New(s.Addr()).Ping() { // warm the shared client up outside any bubble
-		t.Fatalf("miniredis does not answer")
-	}
-	kit.Run(t, "C01", "redis-run", kit.Opts{Quick: 200, Thorough: 3200}, c01GenRedis,
-		func(c c01RCase) kit.Verdict { return c01InterpRedis(t, s, c) })
+	kit.Run(t, "C01", "redis-run", kit.Opts{Quick: 120, Thorough: 2400}, c01GenRedis,
+		func(c c01RCase) kit.Verdict { return c01InterpRedis(t, servers, c) })
 }
